@@ -99,7 +99,13 @@ Section K.
   Hypothesis solver_sound : forall cs sol, solver cs = Some sol -> consistent sol /\ all_sat sol cs = true.
   Hypothesis solver_complete : forall cs, solver cs = None -> forall m, fsat m cs = false.
   Hypothesis Hnn : nonneg w.
-  Hypothesis Hcw : forall c, cube_good g c ->
+  (* `okc` = an extra invariant of the cubes read back from ANY model of the encoding of F plus
+     further clauses (AD-saturation when F contains AD clauses; `fun _ => True` otherwise);
+     the weight lemma is only needed for such cubes *)
+  Variable okc : list Z -> Prop.
+  Hypothesis Hok : forall extra sol, consistent sol ->
+    all_sat sol (encode n true (F ++ extra)) = true -> okc (from_partial weighted sol).
+  Hypothesis Hcw : forall c, cube_good g c -> okc c ->
     (cube_weight w c == wmc w n (fun a => holds_all a F && cube_sat a c))%Q.
 
   Section OneBorder.
@@ -142,7 +148,7 @@ Section K.
   Lemma sol_cube_good cs sol : consistent sol -> all_sat sol (encode n true (clauses_of cs)) = true ->
     cube_good g (from_partial weighted sol).
   Proof.
-    clear solver_sound solver_complete Hcw Hnn HrF.
+    clear solver_sound solver_complete Hcw Hok okc Hnn HrF.
     intros Hc Hs. split.
     - apply (from_partial_nodup weighted sol); [|apply incl_refl|apply Hc].
       intros i Hwi Hct. apply Hw in Hwi. apply is_atom_range in Hwi. fold n in Hwi.
@@ -156,14 +162,14 @@ Section K.
 
   Lemma cubes_good cs : cubes_ok cs -> Forall (cube_good g) cs.
   Proof.
-    clear solver_sound solver_complete Hcw Hnn HrF.
+    clear solver_sound solver_complete Hcw Hok okc Hnn HrF.
     induction 1 as [|cs sol Hcs IH Hc Hs]; [constructor|].
     apply Forall_app. split; auto. constructor; [|constructor]. eapply sol_cube_good; eauto.
   Qed.
 
   Lemma cube_good_lit c l : cube_good g c -> In l c -> l <> 0 /\ weighted (Z.abs l) = true /\ 1 <= Z.abs l <= Z.of_nat n.
   Proof.
-    clear solver_sound solver_complete Hcw Hnn HrF.
+    clear solver_sound solver_complete Hcw Hok okc Hnn HrF.
     intros [_ H] Hl. specialize (H l Hl). pose proof (is_atom_range _ _ H) as Hr. fold n in Hr.
     split; [lia|]. split; auto. apply Hw; auto.
   Qed.
@@ -171,7 +177,7 @@ Section K.
   Lemma sol_exclusive cs sol c : cubes_ok cs -> In c cs -> consistent sol ->
     all_sat sol (encode n true (clauses_of cs)) = true -> exclusive c (from_partial weighted sol).
   Proof.
-    clear solver_sound solver_complete Hcw Hnn HrF.
+    clear solver_sound solver_complete Hcw Hok okc Hnn HrF.
     intros Hcs Hc Hcons Hs.
     pose proof (cubes_good cs Hcs) as Hg. rewrite Forall_forall in Hg. specialize (Hg c Hc).
     assert (Hin : In (map cpt (map Z.opp c)) (encode n true (clauses_of cs))).
@@ -190,7 +196,7 @@ Section K.
 
   Lemma cubes_exclusive cs : cubes_ok cs -> pairwise exclusive cs.
   Proof.
-    clear solver_sound solver_complete Hcw Hnn HrF.
+    clear solver_sound solver_complete Hcw Hok okc Hnn HrF.
     induction 1 as [|cs sol Hcs IH Hc Hs]; [exact I|].
     apply pairwise_snoc; auto. apply Forall_forall. intros c Hcin. eapply sol_exclusive; eauto.
   Qed.
@@ -264,24 +270,33 @@ Section K.
 
   (* --- the bounds, given that a good cube's product of weights is its weighted model count *)
 
-  Lemma value_is_wmc cs : Forall (cube_good g) cs ->
+  Lemma cubes_okc cs : cubes_ok cs -> Forall okc cs.
+  Proof.
+    clear solver_sound solver_complete Hcw Hnn HrF.
+    induction 1 as [|cs sol Hcs IH Hc Hs]; [constructor|].
+    apply Forall_app. split; auto. constructor; [|constructor].
+    apply (Hok (Constr true [q] :: map block cs) sol Hc). exact Hs.
+  Qed.
+
+  Lemma value_is_wmc cs : Forall (cube_good g) cs -> Forall okc cs ->
     (sumQ (map (cube_weight w) cs)
      == sumQ (map (fun c => wmc w n (fun a => holds_all a F && cube_sat a c)) cs))%Q.
   Proof.
-    induction 1 as [|c cs Hc Hcs IH]; simpl; [reflexivity|]. rewrite IH, (Hcw c Hc). reflexivity.
+    induction 1 as [|c cs Hc Hcs IH]; intro Ho; simpl; [reflexivity|].
+    inversion Ho as [|? ? Ho1 Ho2]; subst. rewrite (IH Ho2), (Hcw c Hc Ho1). reflexivity.
   Qed.
 
   Theorem border_lower b : reach b -> (b_value b <= prob w n F q)%Q.
   Proof.
     clear solver_complete HrF. intro Hb. destruct (reach_inv b Hb) as [I1 [I2 [I3 I4]]].
-    rewrite I3. rewrite (value_is_wmc _ (cubes_good _ I2)).
+    rewrite I3. rewrite (value_is_wmc _ (cubes_good _ I2) (cubes_okc _ I2)).
     apply disjoint_lower; auto using cubes_exclusive, cubes_entail.
   Qed.
 
   Theorem border_exact b : reach b -> b_impr b = None -> (b_value b == prob w n F q)%Q.
   Proof.
     intros Hb Hnone. destruct (reach_inv b Hb) as [I1 [I2 [I3 I4]]].
-    rewrite I3. rewrite (value_is_wmc _ (cubes_good _ I2)).
+    rewrite I3. rewrite (value_is_wmc _ (cubes_good _ I2) (cubes_okc _ I2)).
     apply covering_exact; auto using cubes_exclusive, cubes_entail.
     apply unsat_covers; auto. rewrite <- I1. auto.
   Qed.
